@@ -4,7 +4,8 @@ VARIABLE h
 gvars == <<vars, h>>
 GenInit == Init /\ h = <<>>
 GenNext ==
-    \/ \E r \in Revs : Register(r) /\ h' = Append(h, [ev |-> "Register", rev |-> r])
+    \/ Connect /\ h' = Append(h, [ev |-> "Connect"])
+    \/ \E w \in W, r \in Revs : Register(w, r) /\ h' = Append(h, [ev |-> "Register", w |-> w, rev |-> r])
     \/ \E w \in W : Lost(w) /\ h' = Append(h, [ev |-> "Lost", w |-> w])
     \/ \E r \in Revs : Poll(r) /\ h' = Append(h, [ev |-> "Poll", rev |-> r])
     \/ \E x \in Alg, T \in SUBSET Targets : Run(x, T) /\ h' = Append(h, [ev |-> "Run", S |-> {x}, T |-> T])
